@@ -327,6 +327,8 @@ func c18Random(c *core.Ctx, idx int) {
 	}
 	kind := Kinds[r.Intn(5)]
 	s := NewStack(kind, 0).Push("a", "b")
+	bystander := stackage.Or().Push("by", "stander")
+	bcond := stackage.Cond("bk", stackage.Eq, "bv")
 	var log []string
 	if r.Chance(1, 8) {
 		// a stack its own validity policy currently rejects is still configurable (it merely renders as nothing)
@@ -350,6 +352,28 @@ func c18Random(c *core.Ctx, idx int) {
 	content, _ := Take(s)
 	for step := 0; step < 30; step++ {
 		ro := bits&roBit != 0
+		if r.Chance(1, 5) {
+			// another, unrelated instance goes through its own settings in between (reset of its encapsulation and new
+			// pairs, its own log levels, a re-Init of a copied Condition handle): this instance's settings are its own
+			switch r.Intn(3) {
+			case 0:
+				bystander.SetEncap("|")
+				bystander.SetEncap()
+				bystander.SetEncap([]string{"{", "}"})
+				bystander.SetEncap("#")
+			case 1:
+				bcond.SetEncap("^")
+				bcond.SetEncap()
+				bcond.SetEncap([]string{"(", ")"})
+				bcond.SetLogLevel("trace", 64)
+			default:
+				keep := bcond
+				bcond.Init()
+				bcond.SetKeyword("again").SetOperator(stackage.Ne).SetExpression(1).SetLogLevel(stackage.AllLogLevels)
+				_ = keep
+			}
+			c.Count("random.bystander-settings")
+		}
 		if r.Chance(1, 6) {
 			// an error left over from some earlier call says nothing about the settings: every option keeps working
 			if r.Chance(2, 3) {
